@@ -37,6 +37,7 @@ impl Monitor for M {
         let exp = expected_metadata(&model, &layout);
         let mut paths = vec![];
         let mut texts = vec![];
+        let rng_before_emission = ctx.rng.clone();
         for (i, f) in layout.files.iter().enumerate() {
             let x = emit_file(&mut ctx.rng, f);
             // file names in no particular order: the order that counts is the order of the path list
@@ -267,6 +268,71 @@ impl Monitor for M {
                 }
             }
         }
+        // history on the same paths: the files are rewritten with a variant of the same documents that has
+        // the same length (two sequence numbers of one PDU swapped), the modification times are put back
+        // to what they were (as copy / sync tools and coarse file-system clocks do), and the paths are loaded
+        // again: the model returned is the model now written in the files
+        if ctx.index % 4 == 2 && exp.is_some() {
+            let mut layout2 = layout.clone();
+            let mut changed = false;
+            'outer: for f in layout2.files.iter_mut() {
+                for el in f.iter_mut() {
+                    if let El::P(p) = el {
+                        for a in 0..p.sigs.len() {
+                            for b in a + 1..p.sigs.len() {
+                                if p.sigs[a].0.to_string().len() == p.sigs[b].0.to_string().len() && p.sigs[a].1 != p.sigs[b].1 {
+                                    let t = p.sigs[a].0;
+                                    p.sigs[a].0 = p.sigs[b].0;
+                                    p.sigs[b].0 = t;
+                                    changed = true;
+                                    break 'outer;
+                                }
+                            }
+                        }
+                    }
+                }
+            }
+            if changed {
+                let exp2 = expected_metadata(&model, &layout2);
+                let mut r2 = rng_before_emission.clone();
+                let texts2: Vec<String> = layout2.files.iter().map(|f| emit_file(&mut r2, f)).collect();
+                let same_len = texts2.len() == texts.len() && texts2.iter().zip(&texts).all(|(a, b)| a.len() == b.len());
+                if same_len && texts2 != texts {
+                    let mut ok_io = true;
+                    for (pth, t2) in paths.iter().take(texts2.len()).zip(&texts2) {
+                        let mt = std::fs::metadata(pth).and_then(|m| m.modified());
+                        if std::fs::write(pth, t2).is_err() {
+                            ok_io = false;
+                        }
+                        if let (Ok(mt), Ok(fh)) = (mt, std::fs::OpenOptions::new().write(true).open(pth)) {
+                            if fh.set_modified(mt).is_err() {
+                                ok_io = false;
+                            }
+                        } else {
+                            ok_io = false;
+                        }
+                    }
+                    if ok_io {
+                        ctx.eval();
+                        let got2 = guarded(|| gather_fibex_data(FibexConfig { fibex_file_paths: paths.clone() }));
+                        let detail2 = |what: String| J::obj().set("files_after_rewrite", J::Arr(texts2.iter().map(|t| J::Str(trunc(t, 4000))).collect())).set("what", what);
+                        match (got2, &exp2) {
+                            (Err(p), _) => ctx.panic_violation("load.no_panic", &p, || detail2("panic on the second load".into())),
+                            (Ok(Some(g2)), Some(e2)) => {
+                                let eq = g2.frame_map.len() == e2.frame_map.len() && e2.frame_map.iter().all(|(k, v)| g2.frame_map.get(k).map_or(false, |gv| same_frame(gv, v)));
+                                if eq {
+                                    ctx.obs("ok.reload_after_same_length_rewrite");
+                                } else {
+                                    ctx.violation("model.reflects_the_files_as_they_are_now", "same_length_same_mtime_rewrite", || detail2("the second load of rewritten files (same paths, same lengths, same modification times) did not return the rewritten model".into()));
+                                }
+                            }
+                            (Ok(None), Some(_)) => ctx.violation("load.must_succeed", "after_rewrite", || detail2("second load failed".into())),
+                            _ => {}
+                        }
+                    }
+                }
+            }
+        }
         let t0 = texts.first().cloned().unwrap_or_default();
         ctx.sample(|| J::obj().set("files", layout.files.len()).set("first_file", trunc(&t0, 1500)).set("frames", model.frames.len()).set("pdus", model.pdus.len()).set("dangling", model.dangling));
     }
@@ -279,7 +345,7 @@ impl Monitor for M {
 
     fn describe(&self, ctx: &Ctx) -> J {
         super::describe(
-            "abstract models: 0-12 frames (ids ID_<n> incl. n > 2^31 and non-numeric ids, 1/5 duplicates of an earlier id with different content, 5/6 with manufacturer extension whose four fields are each present 5/6), 0-30 PDUs (1/7 duplicate ids, optional description, 0-6 signal instances with distinct non-contiguous shuffled sequence numbers), signal refs over all S_* names incl. S_FLOA16, S_RAW/S_RAWD, unknown names, and custom signals -> codings -> all A_* base types incl. the A_INT*/A_SINT* synonyms, unknown base types and signals without coding; 1/12 models with a dangling PDU reference. Layouts: 1-4 files with names in no particular order (1 in 10 path lists names a file twice), elements grouped by kind in random order or fully shuffled, random child order inside PDU/FRAME/instances, namespace styles fx:/ho:, none, a:/b:, mixed, prefixed attributes, both <X-REF/> and <X-REF></X-REF>, optional container elements, comments, CRLF/no whitespace, texts with XML escapes and numeric character references, unrelated ECU manufacturer extensions and PROJECT elements. Application / context ids from pools with equal concatenations, trailing blanks and ids longer than 4 bytes sharing their first 4 bytes. Lookups by frame id, by (context, app, frame id), with foreign / swapped / 4-byte-truncated ids and unknown ids. distinct = (#files, grouped?, duplicate frames?, duplicate PDUs?, dangling?, signal vocabulary used, #frames, #PDUs buckets); non-trivial = the model has a frame or PDU",
+            "abstract models: 0-12 frames (ids ID_<n> incl. n > 2^31 and non-numeric ids, 1/5 duplicates of an earlier id with different content, 5/6 with manufacturer extension whose four fields are each present 5/6), 0-30 PDUs (1/7 duplicate ids, optional description, 0-6 signal instances with distinct non-contiguous shuffled sequence numbers), signal refs over all S_* names incl. S_FLOA16, S_RAW/S_RAWD, unknown names, and custom signals -> codings -> all A_* base types incl. the A_INT*/A_SINT* synonyms, unknown base types and signals without coding; 1/12 models with a dangling PDU reference. Layouts: 1-4 files with names in no particular order (1 in 10 path lists names a file twice), elements grouped by kind in random order or fully shuffled, random child order inside PDU/FRAME/instances, namespace styles fx:/ho:, none, a:/b:, mixed, prefixed attributes, both <X-REF/> and <X-REF></X-REF>, optional container elements, comments, CRLF/no whitespace, texts with XML escapes and numeric character references, unrelated ECU manufacturer extensions and PROJECT elements. Application / context ids from pools with equal concatenations, trailing blanks and ids longer than 4 bytes sharing their first 4 bytes. Every 4th model is followed by a history on the same paths: the files are rewritten with a same-length variant (two sequence numbers swapped), their modification times restored, and loaded again. Lookups by frame id, by (context, app, frame id), with foreign / swapped / 4-byte-truncated ids and unknown ids. distinct = (#files, grouped?, duplicate frames?, duplicate PDUs?, dangling?, signal vocabulary used, #frames, #PDUs buckets); non-trivial = the model has a frame or PDU",
             &[
                 "documents stay inside what the format defines: distinct sequence numbers per parent, non-empty text in mandatory text elements, CODING-REF as an empty element, unique signal and coding ids (the statement fixes 'first wins' only for frames and PDUs)",
                 "an empty DESC element means no description",
